@@ -226,7 +226,12 @@ def shapes(cx, depth, rng, full):
     reps = 3 if not full else 8
     for _ in range(reps):
         for d in range(0, depth + 1):
-            yield from level(d, True)
+            if d <= 1:
+                yield from level(d, True)
+            else:
+                # deeper levels: only the shapes that actually nest, more of them
+                for _ in range(3):
+                    yield from itertools.islice(level(d, True), 17, None)
 
 
 # ---- value variants ---------------------------------------------------------------------
@@ -508,14 +513,14 @@ def sq_cases(tier, rng):
                     yield sq_case(cfg, t, "d1")
             pairs = list(itertools.product(range(len(leaves)), repeat=2))
             if tier == "quick":
-                pairs = rng.sample(pairs, 70)
+                pairs = rng.sample(pairs, 36)
             for i, j in pairs:
                 elems = [leaves[i], leaves[j]]
                 if not valid_coll(kind, elems):
                     continue
                 yield sq_case(cfg, wrap(kind, elems), "d1")
     # nested templates
-    nrand = 420 if tier == "quick" else 6000
+    nrand = 360 if tier == "quick" else 6000
     maxd = 2 if tier == "quick" else 3
     for i in range(nrand):
         cfg = cfgs[i % 4]
